@@ -4,6 +4,7 @@ import (
 	"fmt"
 	"os"
 	"path/filepath"
+	"strings"
 
 	"github.com/alecthomas/kong"
 
@@ -14,6 +15,7 @@ import (
 const (
 	appConfigDir  = "ps3netsrv-go"
 	appConfigFile = "config.ini"
+	configFileEnv = "PS3NETSRV_CONFIG_FILE"
 )
 
 var (
@@ -45,7 +47,7 @@ func main() {
 		kongutil.OutputFileMapper,
 		kongutil.BinSizeMapper,
 	)
-	ctx, err := k.Parse(translateArgs(os.Args[1:]))
+	ctx, err := k.Parse(configFromEnv(translateArgs(os.Args[1:])))
 	k.FatalIfErrorf(err)
 	k.FatalIfErrorf(ctx.Run())
 }
@@ -59,6 +61,24 @@ func configLocations() []string {
 
 	ret = append(ret, appConfigFile) // search in current workdir
 	return ret
+}
+
+// configFromEnv makes config file given by environment variable work like one given by "--config" flag.
+// Configuration file is loaded by a hook of the flag and hooks are called only for flags present
+// in command line, so value taken from environment variable was silently ignored.
+func configFromEnv(args []string) []string {
+	path := os.Getenv(configFileEnv)
+	if path == "" {
+		return args
+	}
+
+	for _, arg := range args {
+		if arg == "--config" || strings.HasPrefix(arg, "--config=") {
+			return args // explicitly given flag wins
+		}
+	}
+
+	return append([]string{"--config=" + path}, args...)
 }
 
 // hack to run server if 1st arg is a path to directory
